@@ -360,7 +360,7 @@ Proof.
         -- destruct (o_comps _ _ _ Hinv c Hcin) as [w [Hw [Hcw Hnot]]]. exists w. split; [exact Hw|]. split; [exact Hcw|].
            intros x Hx Hxu. apply (Hnot x Hx). apply Hsub. exact Hxu.
         -- exists v. split; [apply (o_range _ _ _ Hinv); exact Hvu|]. split; [exact Hc|].
-           intros x Hx Hxu. apply isort_In in Hx. exact (Hdisj x Hxu Hx).
+           intros x Hx Hxu. apply (proj1 (isort_In _ _)) in Hx. exact (Hdisj x Hxu Hx).
       * intros x Hx. destruct (o_cover _ _ _ Hinv x Hx) as [Hxu | [c [Hcin Hxc]]].
         -- apply (s_univ _ _ _ _ _ _ _ Hfin) in Hxu. destruct Hxu as [H | H]; [left; exact H|].
            right. exists (isort sn). split; [apply in_app_iff; right; left; reflexivity | apply isort_In; exact H].
@@ -398,9 +398,11 @@ Proof.
     intro c. unfold comps_ref, vertices. rewrite E0. simpl. tauto.
   - destruct (gn g =? 1) eqn:E1.
     + apply Nat.eqb_eq in E1. exists [[0]]. split; [reflexivity|]. split; [constructor; [intros [] | constructor]|].
-      intro c. unfold comps_ref, comp_ref, vertices. rewrite E1. simpl.
       assert (Hr : reach_ref g 0 0 = true) by (apply reach_ref_iff; [exact Hwf | apply reach_refl]).
-      rewrite Hr. simpl. tauto.
+      assert (Hcr : comps_ref g = [[0]]).
+      { unfold comps_ref, comp_ref, vertices. rewrite E1.
+        cbn [seq filter is_least forallb map]. rewrite Hr. reflexivity. }
+      intro c. rewrite Hcr. tauto.
     + destruct (ccs_loop_correct g Hwf (gn g) (vertices g) []) as [cs [Hcs Ho]].
       * constructor.
         -- apply seq_NoDup.
